@@ -203,6 +203,12 @@ def run(tier, seed):
          f"random stage misses alterations {[o for o in OPS_REQUIRED if rops.get(o, 0) == 0]}")
     need(sp_r.get("random_sd_mut:move_id_digit_to_stake", 0) + sp_r.get("random_sd_mut:move_stake_digit_to_id", 0) > 0,
          "no stake edit moved a digit between an identifier and the adjacent number")
+    # do not leave big files behind (a rejected trace has been copied to replays/ by validate)
+    for f in (p_cases, p_sd, p_coll):
+        os.remove(f)
+    if not c.violations:
+        for _, t in traces:
+            os.remove(t)
     c.cov["evaluations"] = total
     c.cov["distinct_nontrivial"] = len(distinct)
     c.cov["rule"] = ("client-side checks (wire decode -> verify -> MessageBuilder -> match_message) of real responses: "
